@@ -51,6 +51,7 @@ struct AmgCfg {
     bool defaults = false;       // leave every component parameter at its default (only the two types are written)
     // coarsening parameters (only those of the selected coarsening are written)
     bool set_eps = false; double eps_strong = 0.08;
+    unsigned block_size = 1;     // coarsening.aggr.block_size (pointwise aggregation), aggregation-type coarsenings only
     bool set_over = false; double over_interp = 1.5;
     bool set_sa = false; double sa_relax = 1.0; bool est_rho = false; int sa_power_iters = 0;
     bool set_trunc = false; bool do_trunc = true; double eps_trunc = 0.2;
@@ -94,6 +95,7 @@ struct AmgCfg {
             if (set_trunc) { p.put(d + "coarsening.do_trunc", do_trunc); p.put(d + "coarsening.eps_trunc", eps_trunc); }
         } else {
             if (set_eps) p.put(d + "coarsening.aggr.eps_strong", eps_strong);
+            if (block_size > 1) p.put(d + "coarsening.aggr.block_size", block_size);
             if (coars == AGG && set_over) p.put(d + "coarsening.over_interp", over_interp);
             if (coars == SA && set_sa) { p.put(d + "coarsening.relax", sa_relax); p.put(d + "coarsening.estimate_spectral_radius", est_rho); p.put(d + "coarsening.power_iters", sa_power_iters); }
         }
@@ -106,6 +108,7 @@ struct AmgCfg {
         if (max_levels != UINT_MAX) os << " max_levels=" << max_levels;
         if (!direct_coarse) os << " direct_coarse=0";
         if (set_eps) os << " eps_strong=" << eps_strong;
+        if (block_size > 1 && coars != RS) os << " aggr.block_size=" << block_size;
         if (coars == AGG && set_over) os << " over_interp=" << over_interp;
         if (coars == SA && set_sa) os << " sa.relax=" << sa_relax << " est_rho=" << est_rho << " power_iters=" << sa_power_iters;
         if (coars == RS && set_trunc) os << " do_trunc=" << do_trunc << " eps_trunc=" << eps_trunc;
@@ -171,14 +174,14 @@ template <class AMG> LevelInfo level_info(const AMG &a) {
 // omega := 0 for a vanishing denominator, no smoothing for a vanishing filtered diagonal): an aggregate whose column of
 // A_f P_tent consists of non-zero ROUNDING RESIDUES (|.| <= 1e-12 max a_ii).  Its omega is still a quotient of residues,
 // i.e. an arbitrary, possibly huge number, and P / R (computed separately) differ by O(1): known finding F-emin-residue.
-template <class AMG> std::string emin_degenerate(const AMG &a, double eps_strong, bool residue_only = false) {
+template <class AMG> std::string emin_degenerate(const AMG &a, double eps_strong, bool residue_only = false, unsigned block_size = 1) {
     std::string why; float eps = static_cast<float>(eps_strong); int lvl = 0;
     amgcl_verif::access::for_levels(a, [&](size_t, const amgcl::backend::crs<double> *A, bool, bool, bool hasP) {
         if (!A || !hasP || !why.empty()) { ++lvl; return; }
         for (size_t j = 0; j < A->nnz; ++j) if (!std::isfinite(A->val[j])) { ++lvl; return; } // only below an already degenerate level
-        amgcl::coarsening::plain_aggregates::params ap; ap.eps_strong = eps;
+        amgcl::coarsening::pointwise_aggregates::params ap; ap.eps_strong = eps; ap.block_size = block_size; // block_size 1: plain_aggregates
         size_t nc = 0; std::vector<ptrdiff_t> id; std::vector<char> strong;
-        try { amgcl::coarsening::plain_aggregates ag(*A, ap); nc = ag.count; id = ag.id; strong = ag.strong_connection; }
+        try { amgcl::coarsening::pointwise_aggregates ag(*A, ap, 0); nc = ag.count; id = ag.id; strong = ag.strong_connection; }
         catch (const amgcl::error::empty_level &) { ++lvl; return; }
         std::vector<double> colmax(nc, 0.0), diamax(nc, 0.0);
         for (size_t i = 0; i < A->nrows; ++i) {
@@ -211,6 +214,62 @@ template <class AMG> std::string emin_degenerate(const AMG &a, double eps_strong
             }
         }
         eps *= 0.5f; ++lvl;
+    });
+    return why;
+}
+
+// Known finding F-emin-pointwise-isolated-column.  With coarsening.aggr.block_size = b > 1 a node (b consecutive unknowns) is
+// aggregated as soon as ONE of its unknowns is strongly coupled to a neighbouring node; unknowns of the node that have no
+// coupling into any strongly connected node are dragged along (with b = 1 such unknowns are "removed" and stay on the fine
+// level).  If all members of a coarse column (aggregate a, component k) are of that kind, the column of A_f P_tent is
+// D restricted to the members, the energy-minimising damping is omega = (D,D)/(D,D) = 1 and  P(:,c) = P_tent(:,c) -
+// D^-1 A_f P_tent(:,c) omega = 0 (exactly, or 1e-16 by rounding): the Galerkin operator gets a zero row, the coarsest
+// factorisation throws "Zero sum in skyline_lu" or the hierarchy becomes NaN.  smoothed_aggregation does the same for
+// relax = 1.5 (omega = 1) only.  Returns a description of the first such column, empty if there is none.
+template <class AMG> std::string pointwise_isolated_column(const AMG &a, double eps_strong, unsigned block_size) {
+    std::string why; float eps = static_cast<float>(eps_strong); int lvl = 0;
+    if (block_size <= 1) return why;
+    amgcl_verif::access::for_levels(a, [&](size_t, const amgcl::backend::crs<double> *A, bool, bool, bool hasP) {
+        if (!A || !hasP || !why.empty()) { ++lvl; return; }
+        for (size_t j = 0; j < A->nnz; ++j) if (!std::isfinite(A->val[j])) { ++lvl; return; }
+        if (A->nrows % block_size) { ++lvl; return; }
+        amgcl::coarsening::pointwise_aggregates::params ap; ap.eps_strong = eps; ap.block_size = block_size;
+        size_t nc = 0; std::vector<ptrdiff_t> id; std::vector<char> strong;
+        try { amgcl::coarsening::pointwise_aggregates ag(*A, ap, 0); nc = ag.count; id = ag.id; strong = ag.strong_connection; } catch (const amgcl::error::empty_level &) { ++lvl; return; }
+        std::vector<char> has_member(nc, 0), has_coupled(nc, 0);
+        for (size_t i = 0; i < A->nrows; ++i) {
+            if (id[i] < 0) continue;
+            has_member[id[i]] = 1;
+            for (ptrdiff_t j = A->ptr[i]; j < A->ptr[i + 1]; ++j) if (static_cast<size_t>(A->col[j]) != i && strong[j] && A->val[j] != 0) has_coupled[id[i]] = 1;
+        }
+        for (size_t cidx = 0; cidx < nc && why.empty(); ++cidx)
+            if (has_member[cidx] && !has_coupled[cidx]) { std::ostringstream os; os << "level " << lvl << ": no member of coarse column " << cidx << " is coupled to a strongly connected node (omega = 1, P(:,c) = 0)"; why = os.str(); }
+        eps *= 0.5f; ++lvl;
+    });
+    return why;
+}
+
+// Known finding F-emin-pointwise-rank-deficient (general form of the mechanism above).  With aggr.block_size = b > 1 the
+// couplings INSIDE a node are never strong (the diagonal entry of the pointwise matrix is not a connection), so they are
+// lumped into the filtered diagonal and A_f only couples unknowns of different nodes.  On a scalar problem viewed with b > 1
+// (e.g. a chain: A_f decays into isolated pairs {2I-1, 2I} with zero row sums) the columns A_f P_tent(:,(a,0)) and
+// A_f P_tent(:,(a,1)) of one aggregate are linearly dependent, energy minimisation gives omega = 1/2 and IDENTICAL columns
+// P(:,(a,0)) = P(:,(a,1)) (or a zero column for isolated unknowns): P is rank deficient, the Galerkin operator singular, the
+// coarsest factorisation throws "Zero sum in skyline_lu" / "Zero pivot in ILU" or the cycle is NaN.
+// Predicate: some level below the finest has lambda_min(A_l) <= 1e-10 lambda_max(A_l) (the fine matrix is SPD, so this is
+// rank deficiency of the transfer operators).  `a` must be built with direct_coarse = false so that every level keeps A_l.
+template <class AMG> std::string coarse_level_singular(const AMG &a, double *max_cond = nullptr) {
+    std::string why; int lvl = 0;
+    amgcl_verif::access::for_levels(a, [&](size_t, const amgcl::backend::crs<double> *A, bool, bool, bool) {
+        int me = lvl++;
+        if (me == 0 || !A || !why.empty() || A->nrows == 0) return;
+        Eigen::MatrixXd E = Eigen::MatrixXd::Zero(A->nrows, A->nrows); bool fin = true;
+        for (size_t i = 0; i < A->nrows; ++i) for (ptrdiff_t j = A->ptr[i]; j < A->ptr[i + 1]; ++j) { E(i, A->col[j]) += A->val[j]; fin = fin && std::isfinite(A->val[j]); }
+        if (!fin) { std::ostringstream os; os << "level " << me << " has non-finite entries"; why = os.str(); return; }
+        Eigen::SelfAdjointEigenSolver<Eigen::MatrixXd> es(0.5 * (E + E.transpose()), Eigen::EigenvaluesOnly);
+        double lo = es.eigenvalues()(0), hi = es.eigenvalues()(A->nrows - 1);
+        if (max_cond && lo > 0) *max_cond = std::max(*max_cond, hi / lo);
+        if (!(lo > 1e-10 * hi)) { std::ostringstream os; os << "level " << me << " (n=" << A->nrows << ") is singular: lambda_min=" << lo << " lambda_max=" << hi; why = os.str(); }
     });
     return why;
 }
